@@ -3,6 +3,7 @@
 R20.1  allocation provenance: every array allocation takes its dtype from data
 R20.2  cast inventory: no cast / real-part extraction of block data outside the table
 R20.3  dtype/backend witness comes from a block
+R20.5  no block meets an integer computed from (possibly numpy-integer) charge labels (rules/sem_dtype.py)
 """
 
 from __future__ import annotations
@@ -608,3 +609,8 @@ def run(prog, ctx):
     check_casts(prog, ctx)
     check_witness(prog, ctx)
     check_witness_gates(prog, ctx)
+    ctx.rule("R20.5", "abstract evaluation with charge labels marked as numpy integers: no block of array data is combined arithmetically "
+             "with an integer computed from charge labels (a strongly typed scalar widens float32 / complex64 blocks)")
+    from rules.sem_dtype import check_strong_scalars
+
+    ctx.guarded("R20.5", prog.func("symmray.fermionic_core:FermionicArray.phase_sync"), check_strong_scalars, prog, ctx)
